@@ -220,6 +220,14 @@ var c04Names = []string{"a", "b", "c", "d", "e", "g", "h"}
 // ops: indices into c04Bin; unaryPos/unaryOp: optional prefix on one operand (-1 none);
 // deco: 0 none, 1 chain as condition, 2 chain as false branch, 3 nested false branch, 4 chain as true branch
 func c04Chain(ops []int, unaryPos, unaryOp, deco int) []c04Tok {
+	return c04ChainStyled(0, ops, unaryPos, unaryOp, deco)
+}
+
+var c04StrLits = []string{"'3'", "'1'", "'2'", "'5'", "'x'", "''", "'7'"}
+var c04NumLits = []string{"3", "1", "2", "5", "4", "0", "7"}
+
+// style: 0 operands are names; 1 string literals; 2 number literals; 3 name, string, number in turn
+func c04ChainStyled(style int, ops []int, unaryPos, unaryOp, deco int) []c04Tok {
 	var toks []c04Tok
 	un := []string{"not", "-", "+"}
 	ni := 0
@@ -227,7 +235,14 @@ func c04Chain(ops []int, unaryPos, unaryOp, deco int) []c04Tok {
 		if i == unaryPos {
 			toks = append(toks, c04Tok{"unary", un[unaryOp]})
 		}
-		toks = append(toks, c04Tok{"name", c04Names[ni]})
+		v := c04Names[ni]
+		switch {
+		case style == 1 || (style == 3 && ni%3 == 1):
+			v = c04StrLits[ni]
+		case style == 2 || (style == 3 && ni%3 == 2):
+			v = c04NumLits[ni]
+		}
+		toks = append(toks, c04Tok{"name", v})
 		ni++
 	}
 	switch deco {
@@ -273,6 +288,8 @@ var c04Vals = []map[string]stick.Value{
 	{"a": 0, "b": 1, "c": 0, "d": 1, "e": 1, "g": 0, "h": 1, "p": 0, "r": 1, "y": 11, "z": 13},
 	{"a": "x", "b": "xy", "c": "", "d": "y", "e": "x", "g": "2", "h": "3", "p": "", "r": "q", "y": "Y", "z": "Z"},
 	{"a": 2, "b": []stick.Value{1, 2}, "c": 2, "d": []stick.Value{3}, "e": 1, "g": []stick.Value{}, "h": 2, "p": true, "r": false, "y": 11, "z": 13},
+	// Go types other than int / string / float64
+	{"a": float32(0.1), "b": float32(2.7), "c": int8(3), "d": uint16(5), "e": float32(0.7), "g": "6", "h": 9.5, "p": int64(1), "r": uint8(0), "y": float32(1.1), "z": 13},
 }
 
 func c04Env() *stick.Env {
@@ -283,8 +300,13 @@ func c04Env() *stick.Env {
 
 func c04Run(c core.Case) core.Result {
 	// N = [unaryPos, unaryOp, deco, ops...]
+	style := 0
+	if c.Fam == "chainlit" { // N = [style, unaryPos, unaryOp, deco, ops...]
+		style = c.N[0]
+		c.N = c.N[1:]
+	}
 	unaryPos, unaryOp, deco, ops := c.N[0], c.N[1], c.N[2], c.N[3:]
-	toks := c04Chain(ops, unaryPos, unaryOp, deco)
+	toks := c04ChainStyled(style, ops, unaryPos, unaryOp, deco)
 	bare := c04Bare(toks)
 	p := &c04Parser{toks: toks}
 	ref := p.full()
@@ -292,7 +314,7 @@ func c04Run(c core.Case) core.Result {
 		return core.Violation("harness", "reference parser did not consume the chain "+bare)
 	}
 	par := ref.paren()
-	want := ref.shape()
+	want := strings.ReplaceAll(ref.shape(), "'", "\"") // string literals print as %q in the AST shape
 
 	ps, perr, ppan := printShape(par)
 	if ppan != "" {
@@ -380,6 +402,19 @@ func c04Levels(tier string) []core.Level {
 		{Name: "chains of 2 binary operators (27^2) x decorations", Gen: func(emit func(core.Case)) { c04Gen(2, true, emit) }},
 		{Name: "chains of 3 binary operators (27^3) x decorations", Gen: func(emit func(core.Case)) { c04Gen(3, true, emit) }},
 	}
+	lv = append(lv, core.Level{Name: "literal operands: chains of <= 2 operators (thorough 3) whose operands are string literals / number literals / name, string, number in turn, x decorations", Gen: func(emit func(core.Case)) {
+		maxK := 2
+		if thorough(tier) {
+			maxK = 3
+		}
+		for style := 1; style <= 3; style++ {
+			for k := 1; k <= maxK; k++ {
+				c04Gen(k, true, func(c core.Case) {
+					emit(core.Case{Fam: "chainlit", N: append([]int{style}, c.N...)})
+				})
+			}
+		}
+	}})
 	if thorough(tier) {
 		lv = append(lv, core.Level{Name: "chains of 4 binary operators (27^4) x decorations", Gen: func(emit func(core.Case)) { c04Gen(4, true, emit) }})
 	}
@@ -392,10 +427,10 @@ func init() {
 		Category: "exploration",
 		Rule: "every chain x0 op1 x1 .. opk xk over all 27 binary operators, k <= 3 (thorough: k <= 4, decorated as well), each bare and with one unary prefix (not, -, +) at every operand position and with the conditional ?: around it in 5 placements; " +
 			"the reference groups the chain by precedence climbing with its own copy of the documented table and prints the fully parenthesised source; both sources are parsed by the real parser and the public ASTs must be equal modulo GroupExpr " +
-			"(and equal to the reference shape), and for k <= 3 both are executed under 4 valuations and must render identically. distinct = distinct decorated chain; non-trivial = at least two operators or a decoration",
+			"(and equal to the reference shape), and for k <= 3 both are executed under 5 valuations (ints, 0/1, strings, lists and booleans, float32 / int8 / uint16 and other Go numeric types) and must render identically. distinct = distinct decorated chain; non-trivial = at least two operators or a decoration",
 		Assumptions: []string{
 			"the reference table is Twig 1.x's as documented in parse/operator.go at the pinned commit: or 10, and 15, b-or 16, b-xor 17, b-and 18, comparisons/in/matches/starts/ends/.. 20, + - 30, ~ 40, not 50, * / // % 60, is/is not 100, ** 200 (right), unary + - 500, ?: loosest and right-nested",
-			"operands are plain names; tests are odd / even / divisible by(3)",
+			"operands are plain names, or (chains of <= 2 / 3 operators) string and number literals; tests are odd / even / divisible by(3)",
 		},
 		Levels:  c04Levels,
 		Run:     c04Run,
